@@ -3,7 +3,7 @@
 From Coq Require Import List String ZArith NArith Bool Lia.
 From AV Require Import Model.Str Model.Encode Model.Query Model.VTypes Model.Interval Model.Eval Model.CL
   Model.VerifierLegacy Model.VerifierW3C Model.VCfg Model.VProps
-  Proofs.VMonad Proofs.VLegacyProofs Proofs.VLegacyStruct Proofs.VCLFacts Proofs.VLegacyMaster Proofs.VW3CMaster
+  Proofs.VMonad Proofs.VLegacyProofs Proofs.VLegacyStruct Proofs.VCLFacts Proofs.VLegacyMaster Proofs.VW3CMaster Proofs.VW3CSearch
   Proofs.C03Proofs Proofs.C05Proofs.
 Import ListNotations.
 Open Scope string_scope.
@@ -262,46 +262,27 @@ Section C01.
   Lemma get_ci_cv c name k v : get_ci c name = Some (k, v) -> In (k, v) (wc_subject c) /\ cv k = cv name.
   Proof. unfold get_ci. intros H. apply find_some in H. destruct H as [H1 H2]. cbn [fst] in H2. apply String.eqb_eq in H2. auto. Qed.
 
-  Lemma check_predicate_ok R cx pi cs : forall i l, check_predicate cfg R cx pi i cs = ROk l ->
+  Lemma check_predicate_ok R cx pi cs l : check_predicate cfg R cx pi cs = ROk l ->
     exists c id sp k, In (c, (id, sp)) cs /\ get_predicate c (pi_name pi) = Some k /\
       existsb (fun p => pred_eqb p ((if f_w3c_pred_cv cfg then cv k else k), pi_type pi, pi_value pi)) (sp_preds sp) = true.
   Proof.
-    induction cs as [|[c [id sp]] r IH]; intros i l H; cbn [check_predicate] in H; [discriminate|].
-    destruct (get_predicate c (pi_name pi)) as [k|] eqn:Eg.
-    - destruct (existsb _ (sp_preds sp)) eqn:Ee.
-      + destruct (cred_conditions cfg R cx c id (pi_restr pi) (pi_nr pi)).
-        * exists c, id, sp, k. repeat split; auto. left. reflexivity.
-        * destruct (IH _ _ H) as (c' & id' & sp' & k' & Hin & Hr). exists c', id', sp', k'. split; [right; exact Hin|exact Hr].
-      + destruct (IH _ _ H) as (c' & id' & sp' & k' & Hin & Hr). exists c', id', sp', k'. split; [right; exact Hin|exact Hr].
-    - destruct (IH _ _ H) as (c' & id' & sp' & k' & Hin & Hr). exists c', id', sp', k'. split; [right; exact Hin|exact Hr].
+    intros H. destruct (check_predicate_cases _ _ _ _ _ _ H) as [st Hf].
+    destruct (find_predicate_idx _ _ _ _ _ _ _ _ Hf) as (j & c & id & sp & k & b & Hj & _ & Hg & He & _).
+    exists c, id, sp, k. split; [exact (nthZ_In _ _ _ Hj)|auto].
   Qed.
-
-  Lemma find_revealed_ok R cx name q nr cs : forall i l, find_revealed cfg R cx name q nr i cs = Some l ->
+  Lemma find_revealed_ok st R cx name q nr cs l : find_revealed cfg st R cx name q nr 0 cs = Some l ->
     exists c id sp k v u, In (c, (id, sp)) cs /\ get_attribute c name = Some (k, v) /\
       verify_value k sp (encode (value_to_string v)) = ROk u.
   Proof.
-    induction cs as [|[c [id sp]] r IH]; intros i l H; cbn [find_revealed] in H; [discriminate|].
-    destruct (get_attribute c name) as [[k v]|] eqn:Eg.
-    - destruct (verify_value k sp _) as [u| |] eqn:Ev; cbn [is_ok] in H.
-      + destruct (cred_conditions cfg R cx c id q nr).
-        * exists c, id, sp, k, v, u. repeat split; auto. left. reflexivity.
-        * destruct (IH _ _ H) as (c' & id' & sp' & k' & v' & u' & Hin & Hr). exists c', id', sp', k', v', u'. split; [right; exact Hin|exact Hr].
-      + destruct (IH _ _ H) as (c' & id' & sp' & k' & v' & u' & Hin & Hr). exists c', id', sp', k', v', u'. split; [right; exact Hin|exact Hr].
-      + destruct (IH _ _ H) as (c' & id' & sp' & k' & v' & u' & Hin & Hr). exists c', id', sp', k', v', u'. split; [right; exact Hin|exact Hr].
-    - destruct (IH _ _ H) as (c' & id' & sp' & k' & v' & u' & Hin & Hr). exists c', id', sp', k', v', u'. split; [right; exact Hin|exact Hr].
+    intros H. destruct (find_revealed_idx _ _ _ _ _ _ _ _ _ _ H) as (j & c & id & sp & k & v & u & b & Hj & _ & Hg & Hv & _).
+    exists c, id, sp, k, v, u. split; [exact (nthZ_In _ _ _ Hj)|auto].
   Qed.
-
-  Lemma find_unrevealed_ok R cx name q nr cs : forall i l, find_unrevealed cfg R cx name q nr i cs = ROk l ->
+  Lemma find_unrevealed_ok st R cx name q nr cs l : find_unrevealed cfg st R cx name q nr 0 cs = ROk (Some l) ->
     exists c id sp sc, In (c, (id, sp)) cs /\ assoc (id_schema id) (cx_schemas cx) = Some sc /\
       existsb (fun a => String.eqb (cv a) (cv name)) (sc_attrs sc) = true.
   Proof.
-    induction cs as [|[c [id sp]] r IH]; intros i l H; cbn [find_unrevealed] in H; [discriminate|].
-    apply bind_ok in H. destruct H as (sc & Hsc & H). apply of_opt_ok in Hsc.
-    destruct (existsb _ (sc_attrs sc)) eqn:Ee.
-    - destruct (cred_conditions cfg R cx c id q nr).
-      + exists c, id, sp, sc. repeat split; auto. left. reflexivity.
-      + destruct (IH _ _ H) as (c' & id' & sp' & sc' & Hin & Hr). exists c', id', sp', sc'. split; [right; exact Hin|exact Hr].
-    - destruct (IH _ _ H) as (c' & id' & sp' & sc' & Hin & Hr). exists c', id', sp', sc'. split; [right; exact Hin|exact Hr].
+    intros H. destruct (find_unrevealed_idx _ _ _ _ _ _ _ _ _ _ H) as (j & c & id & sp & sc & b & Hj & _ & Hsc & He & _).
+    exists c, id, sp, sc. split; [exact (nthZ_In _ _ _ Hj)|auto].
   Qed.
 
   Theorem c01_w3c R P cx : f_w3c_pred_cv cfg = true -> case_wf1 (CW3C R P cx) = true ->
@@ -321,15 +302,15 @@ Section C01.
     (* what a successful attribute check means *)
     assert (Hattr : forall name q nr l, check_attribute cfg R cx cs name q nr = ROk l ->
               existsb (fun sp => reveals sp name || holds_attr sp name) (map snd (map snd cs)) = true).
-    { intros name q nr l Hc. unfold check_attribute in Hc. apply existsb_exists.
-      destruct (find_revealed cfg R cx name q nr 0 cs) as [l'|] eqn:Ef.
+    { intros name q nr l Hc. apply existsb_exists.
+      destruct (check_attribute_cases _ _ _ _ _ _ _ _ Hc) as [[st Ef]|[st Eu]].
       - destruct (find_revealed_ok _ _ _ _ _ _ _ _ Ef) as (c & id & sp & k & v & u & Hin & Hg & Hv).
         exists sp. split; [eapply Hinsps; eauto|]. apply orb_true_intro. left.
         assert (Hcv : cv k = cv name).
         { unfold get_attribute in Hg. destruct (get_ci c name) as [[k' v']|] eqn:Eci; [|discriminate].
           destruct (get_ci_cv _ _ _ _ Eci) as [_ Hc']. destruct v'; inversion Hg; subst; auto. }
         pose proof (reveals_of_verified _ _ _ _ (Hnormsp _ _ _ Hin) Hv) as Hr. unfold reveals in *. rewrite <- Hcv. exact Hr.
-      - destruct (find_unrevealed_ok _ _ _ _ _ _ _ _ Hc) as (c & id & sp & sc & Hin & Hsc & He).
+      - destruct (find_unrevealed_ok _ _ _ _ _ _ _ _ Eu) as (c & id & sp & sc & Hin & Hsc & He).
         exists sp. split; [eapply Hinsps; eauto|]. apply orb_true_intro. right.
         destruct (In_nthZ _ _ Hin) as [k Hk]. destruct (Hpairs _ _ _ _ Hk) as [sc' cd reg rm Hsc' _ _ _ _ Hcl].
         rewrite Hsc in Hsc'. inversion Hsc'; subst sc'. destruct Hcl as [_ _ _ _ Hattrs _ _ _ _].
@@ -337,7 +318,7 @@ Section C01.
         apply String.eqb_eq in Heq. apply mem_In. rewrite <- Heq. apply in_map. exact Ha0. }
     apply andb_true_intro. split.
     - apply forallb_forall. intros [r pi] Hin. destruct (mapR_in _ _ _ _ Hnp Hin) as (l & Hl). cbn beta iota in Hl.
-      destruct (check_predicate_ok _ _ _ _ _ _ Hl) as (c & id & sp & k & Hcin & Hg & He). rewrite Hflag in He.
+      destruct (check_predicate_ok _ _ _ _ _ Hl) as (c & id & sp & k & Hcin & Hg & He). rewrite Hflag in He.
       apply existsb_exists. exists sp. split; [eapply Hinsps; eauto|].
       unfold proves_pred. apply existsb_exists in He. destruct He as (p & Hp & Hpe). apply existsb_exists. exists p. split; [exact Hp|].
       rewrite pred_eqb_sym.
